@@ -273,3 +273,66 @@ def c03_fn(ctx, case):
         elif kind == "weights":
             ctx.check(not np.iscomplexobj(vb) or float(np.max(np.abs(vb.imag))) == 0, "%s weights are complex" % label, sig=sig)
             ctx.close(np.real(vb), np.real(va), what, rtol=1e-6, atol=1e-8, sig=sig)
+
+
+# ---- order / subspace decisions at the extremes of the amplitude range --------
+@st.composite
+def order_case(draw):
+    what = draw(st.sampled_from(["burg", "burg", "eigen"]))
+    cplx = draw(st.booleans())
+    # the decision rules are most likely to depend on the units at the ends of the stated range of |c|
+    e = draw(st.one_of(st.sampled_from([-3.0, 3.0, -3.0, 3.0, -2.5, 2.5, -2.0, 2.0]), st.floats(-3, 3)))
+    c = {"mod": 10.0 ** e, "phase": (draw(st.floats(0, 6.283185)) if cplx else (math.pi if draw(st.booleans()) else 0.0))}
+    if what == "burg":
+        n = draw(st.one_of(st.integers(32, 128), st.integers(129, 300)))
+        x = draw(gen.signal(dtype="complex" if cplx else "real", kinds=("noise", "ar", "arma", "tones"), n=n, noise_levels=(0.1, 1.0)))
+        q = {"order": draw(st.integers(2, min(24, n // 3))), "criteria": draw(st.sampled_from(["FPE", "AIC", "MDL", "KIC", "AICc", "AKICc"]))}
+    else:
+        big = draw(st.booleans())
+        n = draw(st.integers(200, 400)) if big else draw(st.integers(64, 400))
+        x = draw(gen.signal(dtype="complex" if cplx else "real", kinds=("noise", "ar", "tones"), n=n, noise_levels=(0.1, 1.0)))
+        IP = draw(st.integers(60, min(120, n // 3))) if big else draw(st.integers(3, 12))
+        q = {"IP": IP, "method": draw(st.sampled_from(["music", "ev"])), "select": draw(st.sampled_from(["aic", "mdl", "threshold"])),
+             "threshold": draw(st.sampled_from([1.5, 3.0, 10.0])), "nfft": draw(st.sampled_from([128, 101, 256]))}
+        q["nfft"] = max(q["nfft"], IP + 1)
+    # the data themselves may be in any unit (ADC counts, volts): "all data vectors"
+    return {"what": what, "x": x, "q": q, "c": c, "gain": draw(st.sampled_from([1.0, 2000.0, 1e-3, 1.0]))}
+
+
+@sub("C03.order", strategy=order_case(), quick=500, thorough=12000, shards_quick=4,
+     doc="order selection (arburg with each criterion, maximum order up to 24) and subspace selection (AIC/MDL/threshold, P up to 120; data in units of 1e-3, 1 and 2000) "
+         "give the same decision for c*x and x, with |c| concentrated at 1e-3 and 1e3")
+def c03_order(ctx, case):
+    q = case["q"]
+    x = gen.realise(case["x"])
+    x = (x.astype(complex) if np.iscomplexobj(x) else x.astype(float)) * case.get("gain", 1.0)
+    cplx = np.iscomplexobj(x)
+    c = cval(case["c"], cplx)
+    ac = abs(c)
+    ctx.nontrivial(nontriv(case["c"], x))
+    ctx.cls("gain=%g" % case.get("gain", 1.0))
+    if case["what"] == "burg":
+        sig = {"fn": "arburg_crit", "criteria": q["criteria"]}
+        ctx.sig_on_exception = sig
+        ctx.cls("arburg/" + q["criteria"], "complex" if cplx else "real", "|c|<=1e-2" if ac <= 1e-2 else ("|c|>=1e2" if ac >= 1e2 else "mid"))
+        a0, r0, k0 = spectrum.arburg(x, q["order"], criteria=q["criteria"])
+        a1, r1, k1 = spectrum.arburg(c * x, q["order"], criteria=q["criteria"])
+        ctx.cls("stops early" if len(a0) < q["order"] else "runs to the maximum order")
+        ctx.check(len(a0) == len(a1), "arburg(criteria=%s, max order %d): selected order %d for x but %d for c*x (c=%r)"
+                  % (q["criteria"], q["order"], len(a0), len(a1), c), sig=sig)
+        ctx.close(np.asarray(a1), np.asarray(a0), "arburg/%s AR coefficients depend on the amplitude" % q["criteria"], rtol=0,
+                  atol=1e-8 * max(1.0, float(np.max(np.abs(a0))) if len(a0) else 1.0), sig=sig)
+        ctx.close(np.asarray([r1]), np.asarray([ac ** 2 * r0]), "arburg/%s rho(c x) vs |c|^2 rho(x)" % q["criteria"], rtol=1e-7, sig=sig)
+    else:
+        sig = {"fn": "eigen_auto", "select": q["select"]}
+        ctx.sig_on_exception = sig
+        ctx.cls("eigen/" + q["select"], q["method"], "P>=60" if q["IP"] >= 60 else "P<=12", "|c|<=1e-2" if ac <= 1e-2 else ("|c|>=1e2" if ac >= 1e2 else "mid"))
+        kw = {"criteria": q["select"]} if q["select"] != "threshold" else {"threshold": q["threshold"]}
+        p0, s0 = spectrum.eigenfre.eigen(x, q["IP"], method=q["method"], NFFT=q["nfft"], **kw)
+        p1, s1 = spectrum.eigenfre.eigen(c * x, q["IP"], method=q["method"], NFFT=q["nfft"], **kw)
+        e = 0 if q["method"] == "music" else 1
+        ctx.close(np.asarray(s1), ac * np.asarray(s0), "singular values(c x) vs |c| singular values(x)", rtol=1e-7,
+                  atol=1e-9 * ac * float(np.max(np.abs(s0))), sig=sig)
+        est.compare_psd(ctx, "music", p1, ac ** e * np.real(p0),
+                        "eigen(%s, %s rule, P=%d): pseudo-spectrum of c*x vs |c|^%d x that of x (a different signal-subspace "
+                        "dimension was selected?) c=%r" % (q["method"], q["select"], q["IP"], e, c), sig=sig)
